@@ -90,7 +90,7 @@ def r15a(P, R):
                         R.violated("R15-a", "dispatch:" + short(f0.path), "%s applies the same parameter %s to both routes: the other function is never used" % (f0.path, sorted(ga)), loc=f0.loc())
                     else:
                         R.undecided("R15-a", "dispatch:" + short(f0.path), "%s: SDL arm uses %s, introspection arm uses %s" % (f0.path, sorted(ga), sorted(ia)), loc=f0.loc())
-    R.floor("R15-a", "matches over LoadedSchema", n, 6)
+    R.floor("R15-a", "matches over LoadedSchema", n, 4)
     R.floor("R15-a", "per-route dispatcher of LoadedSchema", len(dispatchers), 1)
     # the checker/operation printer receive a Schema on both routes: SDL via ast_to_type_system
     a2t = P.fn(SEM + "ast_to_type_system::ast_to_type_system")
@@ -247,6 +247,34 @@ def r15b(P, R):
         R.check("R15-b", "no-depth-limit:" + f.name, not bad, "no failure depends on a nesting counter",
                 "%s fails when a counter parameter (%s) crosses a bound (line %s): a type reference nested deeper than that is rejected on the "
                 "JSON route (or its field's arguments are silently dropped) while the SDL route accepts it" % (f.path, sorted(counters), bad), loc=f.loc())
+    # a wrapper marker describes ONE level of the ofType chain.  When the chain is walked by a loop, a boolean that is set on one
+    # iteration and recorded per iteration (pushed / stored for the level at hand) must be cleared inside the loop; a marker that can
+    # only ever go one way leaks from an outer wrapper (`[T]!`) to every level below it (`[T!]!`).
+    for f in [P.fns[p] for p in sorted(rec_set)]:
+        flags = {x["pat"]["local"]: x["pat"].get("name") for x in f.walk() if x.get("k") == "Let" and x["pat"].get("k") == "Binding" and x["pat"].get("t") == "bool"}
+        for loop in [x for x in f.walk() if x.get("k") == "Loop"]:
+            inner = subnodes(loop)
+            declared_inside = {y["pat"]["local"] for y in inner if y.get("k") == "Let" and y["pat"].get("k") == "Binding" and "local" in y["pat"]}
+            for lid, nm in sorted(flags.items()):
+                if lid in declared_inside:
+                    continue
+                assigned = {lit_value(y["r"]) for y in inner if y.get("k") == "Assign" and y["l"].get("k") == "Path" and y["l"].get("local") == lid}
+                taken = any(y.get("k") == "Call" and (call_name(y) or "").endswith(("mem::take", "mem::replace", "mem::swap"))
+                            and any(z.get("k") == "Path" and z.get("local") == lid for z in subnodes(y)) for y in inner)
+                recorded = [y for y in inner if (y.get("k") == "MethodCall" and y["method"] in ("push", "push_back", "insert", "push_front")
+                                                 and any(z.get("k") == "Path" and z.get("local") == lid for a_ in y["args"] for z in subnodes(a_)))
+                            or (y.get("k") in ("Tup", "Struct") and "rest" not in y and any(z.get("k") == "Path" and z.get("local") == lid for z in subnodes(y)))]
+                if not recorded or not assigned - {None}:
+                    continue
+                key = "level-marker:%s:%s" % (f.name, nm)
+                if taken or len(assigned - {None}) >= 2:
+                    R.holds("R15-b", key, "the per-level marker `%s` is cleared when it is consumed" % nm, loc=f.loc())
+                elif None in assigned:
+                    R.undecided("R15-b", key, "the marker `%s` is recorded per level and assigned a computed value in the loop" % nm, loc=f.loc())
+                else:
+                    R.violated("R15-b", key, "%s walks the ofType chain in a loop, sets `%s` to %s for a wrapper and records it for each level, but never clears it "
+                               "inside the loop: the marker of an outer wrapper leaks to every level below it (`[T]!` is read as `[T!]!`), so the JSON route "
+                               "has stricter types than the SDL route" % (f.path, nm, sorted(assigned)), loc=f.loc())
     ad0 = anchor(P, IN + "as_type_definition", lambda g: takes_type(g) and "TypeDefinition<" in (g.sig_output or ""))
     ad = inlined(P, ad0, pred=lambda g: g.path not in rec_set)
     pvd = Prov(ad)
@@ -348,6 +376,35 @@ def r15c(P, R):
         elif cond:
             R.undecided("R15-c", "lossy:" + short(f.path), "%s selects members with %s while converting; whether a member of the schema can be dropped is not decided" % (f.path, cond), loc=f.loc())
     R.holds("R15-c", "lossy:none", "converters apply no filtering/reordering adaptor")
+    # every element is converted: a loop of a converter may skip an element (`continue`/`break` under a condition, a `filter`
+    # predicate) only by the one test the specification licenses — the reserved name prefix `__` of the introspection system.
+    # Any other content-based skip drops user definitions on one route.
+    for p in t2a + [q for q in a2t if q.startswith(SEM + "ast_to_type_system")]:
+        f = P.fns[p]
+        pv = None
+        acc = f.nodes()
+        for i, (x, _) in enumerate(acc):
+            cond = None
+            if x.get("k") == "If" and any(y.get("k") in ("Continue", "Break") and "desugar" not in (y.get("x") or "")
+                                          for b in (x.get("then"), x.get("else")) if b is not None for y in subnodes(b)) \
+                    and any(c[0] == "loop" for c in enclosing_contexts(f, i)):
+                cond = x["cond"]
+            elif x.get("k") == "MethodCall" and x["method"] in ("filter", "skip_while", "take_while") and x["args"] and x["args"][0].get("k") == "Closure":
+                cond = x["args"][0]["body"]
+            if cond is None:
+                continue
+            pv = pv or Prov(f)
+            a = pv.deep_atoms(cond)
+            lits = {v for v in (y[1] for y in a if y[0] == "lit") if isinstance(v, str)}
+            prefix_test = any(y[0] == "call" and y[1].split("::")[-1] in ("starts_with", "strip_prefix") for y in a)
+            key = "skip:%s" % short(f.path)
+            if prefix_test and lits == {"__"}:
+                R.holds("R15-c", key, "skips only names with the reserved prefix `__`", loc=f.loc())
+            elif prefix_test and lits:
+                R.violated("R15-c", key, "%s skips the elements whose name starts with %s while converting: only the prefix `__` is reserved for the "
+                           "introspection system, so user definitions (e.g. `_Service`, `_Entity`) are dropped on this route" % (f.path, sorted(lits)), loc=f.loc())
+            else:
+                R.undecided("R15-c", key, "%s skips elements under a condition this rule does not read (literals %s)" % (f.path, sorted(lits)), loc=f.loc())
 
 
 def r15d(P, R):
@@ -429,9 +486,17 @@ def r15d(P, R):
                 callers.append((f, any(c[0] in ("loop", "closure") for c in enclosing_contexts(f, i))))
     R.floor("R15-d", "set_root_types call sites", len(callers), 2)
     in_loop = [short(f.path) for f, l in callers if l]
-    R.check("R15-d", "roots-accumulate", not (replacing and in_loop), "root types set one by one end up in the same RootTypes node",
-            "set_root_types replaces the RootTypes node on every call (%s) and %s calls it once per root inside a loop: of `schema { query: Q "
-            "mutation: M }` only the last root survives on the SDL route" % (replacing, in_loop), loc=sb.loc())
+    # ... or several times in one conversion (directly or through helpers): the later call must find what the earlier one stored
+    repeated = []
+    for f in sorted({f.path for f, _ in callers}):
+        k = sum(1 for x in inlined(P, P.fns[f]).walk() if x.get("k") == "MethodCall" and (call_name(x) or "") == sb.path)
+        if k >= 2:
+            repeated.append("%s (%d calls)" % (short(f), k))
+    many = in_loop or repeated
+    R.check("R15-d", "roots-accumulate", not (replacing and many), "root types set one by one end up in the same RootTypes node",
+            "set_root_types replaces the RootTypes node on every call (%s) and is called more than once per schema (%s): the roots recorded through "
+            "an earlier call are wiped by the later one, so only the last root(s) survive on that route"
+            % (replacing, "; ".join((["in a loop in " + x for x in in_loop]) + repeated)), loc=sb.loc())
     h0 = P.fn(IN + "introspection")
     for h in (h0, inlined(P, h0)):
         if any(c.get("k") == "MethodCall" and c["method"] in ("set_" + fld for fld in OPS.values()) for c in h.walk()):
